@@ -81,7 +81,7 @@ def install():
 def plan(tier, seed):
     n = 720 if tier == 'quick' else 10000
     kinds = ['multiband_shipped', 'multiband_gen', 'mixed', 'narrow', 'align', 'align', 'multiband_gen', 'narrow',
-             'p2p', 'chassis', 'offgrid', 'align']
+             'p2p', 'chassis', 'offgrid', 'align', 'mixed_wide']
     cases = [{'idx': i, 'kind': kinds[i % len(kinds)]} for i in range(n)]
     # the repository's own tests as one more workload, with the Bitmap invariant on
     return cases + stock.stock_cases(tier, n, ID)
@@ -114,9 +114,14 @@ def build_trx_lines(rng, kind):
     return {'ej': ej, 'tj': tj, 'equipment': equipment, 'network': network}
 
 
-def build_mixed(rng):
-    """C+L network in which some links are single band (user-placed single-band amplifiers)."""
+def build_mixed(rng, wide=False):
+    """C+L network in which some links are single band (user-placed single-band amplifiers).  With `wide` the single-band
+    links use one wide-band model whose single band spans both the L and the C band of the multiband amplifiers."""
     ej = G.eqpt_json('eqpt_config_multiband.json')
+    if wide:
+        ej['Edfa'].append({'type_variety': 'vf_wide_band', 'type_def': 'variable_gain', 'f_min': 186.4e12, 'f_max': 196.2e12,
+                           'gain_flatmax': 26, 'gain_min': 15, 'p_max': 23, 'nf_min': 6, 'nf_max': 10,
+                           'out_voa_auto': False, 'allowed_for_design': False})
     equipment = G.make_equipment(ej)
 
     def rp(r, s):
@@ -148,8 +153,8 @@ def build_mixed(rng):
         ta, tb = typ[a], typ[b]
         if (ta == 'Roadm' and tb == 'Fiber') or (ta == 'Fiber' and tb == 'Fiber') or (ta == 'Fiber' and tb == 'Roadm'):
             uid = f'sbamp {a} to {b}'
-            els.append({'uid': uid, 'type': 'Edfa', 'type_variety': G.pick(rng, ['std_low_gain', 'std_medium_gain_C',
-                                                                                 'std_low_gain_reduced_band']),
+            els.append({'uid': uid, 'type': 'Edfa', 'type_variety': 'vf_wide_band' if wide else
+                        G.pick(rng, ['std_low_gain', 'std_medium_gain_C', 'std_low_gain_reduced_band']),
                         'operational': {'gain_target': None, 'delta_p': None, 'tilt_target': 0, 'out_voa': None},
                         'metadata': G._loc(0, 0)})
             typ[uid] = 'Edfa'
@@ -295,9 +300,9 @@ def run_network(case, ctx):
         scen = {'ej': ej, 'tj': tj, 'equipment': equipment, 'network': network}
     elif kind == 'multiband_gen':
         scen = P.build_multiband(rng)
-    elif kind == 'mixed':
+    elif kind in ('mixed', 'mixed_wide'):
         try:
-            scen = build_mixed(rng)
+            scen = build_mixed(rng, wide=kind == 'mixed_wide')
         except (NetworkTopologyError, ConfigurationError) as e:
             ctx.reject(f'{type(e).__name__}: {str(e)[:120]}')
             return
